@@ -1,5 +1,349 @@
 import OasisModel.Proto
-/- C06/C07 node database: driver stub (not built yet). -/
+import OasisModel.NodeDB.Spec
+import OasisModel.NodeDB.Badger
+/-
+Driver of the node-database models (properties C06 / C07), executable `om_nodedb`.
+The first input line selects the sub-mode:
+
+  mode spec      the abstract contract `Spec` as a checker with witness (dbdrv)
+  mode badger    the bookkeeping model `Badger` of the badger backend as an exact oracle (dbdrv)
+
+### mode badger — the REAL badger backend, node level
+  commit <t> <v> <sv> <sh> <h> <res> <added h:left.right:embeddedleaf,..|-> <removed h,..|->   PutNode / RemoveNodes as issued
+  finalize <v> <chosen t:h,..|-> <res>
+  prune <v> <res>
+  obs / has as above;  readable <v> <t> <h> <0|1>   (only for roots the DB claims to have)
+The model must predict every result, every observer and exactly which claimed roots read back
+completely.  When model and implementation agree that a claimed root is unreadable the answer is
+`ok note=<cause>`, naming the bookkeeping rule that deleted the missing node.
+
+### mode spec — one line per operation / observation of a REAL backend
+  commit <t> <v> <sv> <sh> <h> <res> <contents>    tree derived from (sv,t,sh) committed as (v,t,h)
+  finalize <v> <chosen t:h,..|-> <res> <keep t:h,..|->   keep = GetRootsForVersion(v) afterwards
+  prune <v> <res>
+  reopen
+  obs <latest|-> <earliest> <roots v:t:h,..|->     GetLatestVersion / GetEarliestVersion / all roots
+  has <v> <t> <h> <0|1>                            HasRoot
+  read <v> <t> <h> <contents|!err>                 full read-back under a root the DB claims to have
+`res` is `ok`, an API error name (`Err.toString`), `restricted` (a backend-specific refusal that
+the API allows: the operation must then have had no effect) or `src_unreadable`.
+Answers: `ok` or `DIVERGE <signature> <detail>`; after a divergence every line is answered `skip`.
+-/
 namespace OasisModel.NodeDB.Driver
-def main : IO Unit := IO.eprintln "mode not implemented"
+open OasisModel.Proto OasisModel.NodeDB
+
+def parseTH (v : Nat) (s : String) : Option Root :=
+  match s.splitOn ":" with
+  | [t, h] => do pure { ver := v, typ := (← t.toNat?), hash := (← h.toNat?) }
+  | _ => none
+
+def parseTHs (v : Nat) (s : String) : Option (List Root) :=
+  if s == "-" then some [] else (s.splitOn ",").mapM (parseTH v)
+
+def parseVTH (s : String) : Option Root :=
+  match s.splitOn ":" with
+  | [v, t, h] => do pure { ver := (← v.toNat?), typ := (← t.toNat?), hash := (← h.toNat?) }
+  | _ => none
+
+def parseVTHs (s : String) : Option (List Root) :=
+  if s == "-" then some [] else (s.splitOn ",").mapM parseVTH
+
+def showRoot (r : Root) : String := s!"{r.ver}:{r.typ}:{r.hash}"
+
+def rootLe (a b : Root) : Bool :=
+  a.ver < b.ver || (a.ver == b.ver && (a.typ < b.typ || (a.typ == b.typ && a.hash ≤ b.hash)))
+
+def sortRoots (l : List Root) : List Root := l.mergeSort rootLe
+
+structure SpecSt where
+  s : Spec.St := Spec.init
+  dead : Bool := false
+
+def errNames (l : List Err) : String := ",".intercalate (l.map Err.toString)
+
+/-- Judge the result string of an operation against the error sets of the contract.
+Returns `none` if acceptable, and whether the operation took effect. -/
+def judge (res : String) (must may : List Err) : Except String Bool :=
+  if res == "ok" then
+    if must.isEmpty then .ok true else .error s!"result-mismatch impl=ok spec-errors={errNames must}"
+  else if res == "restricted" then
+    .ok false
+  else if must.isEmpty then
+    if (may.map Err.toString).contains res then .ok false
+    else .error s!"result-mismatch impl={res} spec=ok"
+  else if (must.map Err.toString).contains res || (may.map Err.toString).contains res then .ok false
+  else .error s!"result-mismatch impl={res} spec-errors={errNames must}"
+
+def specStep (st : SpecSt) (line : String) : SpecSt × String :=
+  if st.dead then (st, "skip") else
+  let fail (msg : String) : SpecSt × String := ({ st with dead := true }, "DIVERGE " ++ msg)
+  let s := st.s
+  match words line with
+  | ["commit", t, v, sv, sh, h, res, c] =>
+    match t.toNat?, v.toNat?, sv.toNat?, sh.toNat?, h.toNat? with
+    | some t, some v, some sv, some sh, some h =>
+      let old : Root := { ver := sv, typ := t, hash := sh }
+      let new : Root := { ver := v, typ := t, hash := h }
+      if res == "src_unreadable" then
+        -- the tree could not even be built from the source root: fine iff the source is not a present root
+        if sh != 0 && (Spec.read s old).isNone then (st, "ok")
+        else fail s!"src-unreadable source root {showRoot old} is present but could not be read"
+      else if res.startsWith "panic" then fail s!"panic commit {res}"
+      else
+      match judge res (Spec.commitErrs s old new) (Spec.commitMayErrs s old new) with
+      | .error e => fail s!"commit-{e}"
+      | .ok false => (st, "ok")
+      | .ok true =>
+        match Spec.commit s old new c with
+        | .error e => fail s!"commit-internal {e.toString}"
+        | .ok s' =>
+          -- content addressing: the same (type,hash) must always carry the same contents
+          match s.present.find? (fun e => e.1.hash == h && e.2 != c) with
+          | some e => fail s!"hash-collision hash {h} stands for `{e.2}` and `{c}`"
+          | none => ({ st with s := s' }, "ok")
+    | _, _, _, _, _ => fail "bad-op"
+  | ["finalize", v, chosen, res, keep] =>
+    match v.toNat? with
+    | none => fail "bad-op"
+    | some v =>
+    match parseTHs v chosen, parseTHs v keep with
+    | some chosen, some keep =>
+      if res.startsWith "panic" then fail s!"panic finalize {res}" else
+      match judge res (Spec.finalizeErrs s v chosen) [] with
+      | .error e => fail s!"finalize-{e}"
+      | .ok false => (st, "ok")
+      | .ok true =>
+        if !Spec.keepOk s v chosen keep then
+          fail s!"finalize-keep chosen roots must stay and only committed roots may stay: keep={keep.map showRoot}"
+        else match Spec.finalize s v chosen keep with
+        | .error e => fail s!"finalize-internal {e.toString}"
+        | .ok s' => ({ st with s := s' }, "ok")
+    | _, _ => fail "bad-op"
+  | ["prune", v, res] =>
+    match v.toNat? with
+    | none => fail "bad-op"
+    | some v =>
+      if res.startsWith "panic" then fail s!"panic prune {res}" else
+      match judge res (Spec.pruneErrs s v) [] with
+      | .error e => fail s!"prune-{e}"
+      | .ok false => (st, "ok")
+      | .ok true =>
+        match Spec.prune s v with
+        | .error e => fail s!"prune-internal {e.toString}"
+        | .ok s' => ({ st with s := s' }, "ok")
+  | ["reopen"] => (st, "ok")
+  | ["obs", latest, earliest, roots] =>
+    match earliest.toNat?, parseVTHs roots with
+    | some e, some roots =>
+      let lat := match s.last with | some l => toString l | none => "-"
+      if lat != latest then fail s!"latest-mismatch impl={latest} spec={lat}"
+      else if e != s.earliest then fail s!"earliest-mismatch impl={e} spec={s.earliest}"
+      else
+        let want := sortRoots ((s.present.map (·.1)).filter (fun r => decide (s.earliest ≤ r.ver)))
+        let got := sortRoots roots
+        match s.fin.find? (fun r => !got.contains r) with
+        | some r => fail s!"finalized-root-missing {showRoot r} not in GetRootsForVersion"
+        | none =>
+          if got != want then fail s!"roots-mismatch impl={got.map showRoot} spec={want.map showRoot}"
+          else (st, "ok")
+    | _, _ => fail "bad-op"
+  | ["has", v, t, h, b] =>
+    match v.toNat?, t.toNat?, h.toNat? with
+    | some v, some t, some h =>
+      let r : Root := { ver := v, typ := t, hash := h }
+      let want := Spec.hasRoot s r
+      let got := b == "1"
+      if got == want then (st, "ok")
+      else if Spec.retained s r then fail s!"finalized-root-missing HasRoot({showRoot r}) = false"
+      else fail s!"hasroot-mismatch HasRoot({showRoot r}) impl={got} spec={want}"
+    | _, _, _ => fail "bad-op"
+  | ["read", v, t, h, c] =>
+    match v.toNat?, t.toNat?, h.toNat? with
+    | some v, some t, some h =>
+      let r : Root := { ver := v, typ := t, hash := h }
+      let kind := if Spec.retained s r then "finalized" else
+        if Spec.finalizedGE s v then "discarded" else "pending"
+      match Spec.read s r with
+      | none =>
+        if h == 0 then (if c == "-" then (st, "ok") else fail s!"foreign-contents empty root {showRoot r} reads `{c}`")
+        else if c.startsWith "!" then (st, "ok")
+        else fail s!"read-of-absent-root {showRoot r} is not a root of the contract but reads `{c}`"
+      | some want =>
+        if c == want then (st, "ok")
+        else if c.startsWith "!" then fail s!"{kind}-root-unreadable {showRoot r}: {c}"
+        else fail s!"foreign-contents-{kind} root {showRoot r} reads `{c}`, committed `{want}`"
+    | _, _, _ => fail "bad-op"
+  | [] => (st, "ok")
+  | _ => fail "bad-op"
+
+/-! ### mode badger -/
+
+structure BSt where
+  s : Badger.St := Badger.init
+  kids : List (Nat × List Nat) := []    -- node ↦ left/right children (what a reader fetches)
+  kidsV : List (Nat × List Nat) := []   -- node ↦ children including the embedded leaf (what Prune visits)
+  causes : List (Nat × Nat × String) := []   -- (node, timestamp, rule that wrote the tombstone)
+  dead : Bool := false
+
+def kidsOf (kids : List (Nat × List Nat)) (h : Nat) : List Nat :=
+  match kids.find? (fun e => e.1 == h) with
+  | some e => e.2
+  | none => []
+
+def reach (kids : List (Nat × List Nat)) : Nat → Nat → List Nat
+  | 0, h => [h]
+  | f + 1, h => h :: (kidsOf kids h).flatMap (reach kids f)
+
+/-- All node hashes of the tree below root hash `h` (`[0]` for the empty hash). -/
+def closure (kids : List (Nat × List Nat)) (h : Nat) : List Nat := (reach kids 80 h).eraseDups
+
+/-- `h:left.right:embedded` ↦ (h, reader children, embedded leaf list) -/
+def parseAdded (s : String) : Option (List (Nat × List Nat × List Nat)) :=
+  if s == "-" then some [] else
+  (s.splitOn ",").mapM fun e =>
+    match e.splitOn ":" with
+    | [h, ks, lf] => do
+      let h ← h.toNat?
+      let ks ← if ks == "" then some [] else (ks.splitOn ".").mapM String.toNat?
+      let lf ← if lf == "" then some [] else (lf.splitOn ".").mapM String.toNat?
+      pure (h, ks, lf)
+    | _ => none
+
+def causeOf (st : BSt) (r : Root) : String :=
+  let cl := closure st.kids
+  if !st.s.rootNode.live (Badger.encTH (r.typ, r.hash)) r.ver then "root-node-key-not-visible"
+  else match (cl r.hash).find? (fun h => !st.s.node.live h r.ver) with
+    | none => "pruned-version"
+    | some h => match st.s.node.get h r.ver with
+      | none => "node-never-written"
+      | some (ts, _) => match st.causes.find? (fun c => c.1 == h && c.2.1 == ts) with
+        | some c => c.2.2
+        | none => "unknown-tombstone"
+
+def badgerStep (st : BSt) (line : String) : BSt × String :=
+  if st.dead then (st, "skip") else
+  let fail (msg : String) : BSt × String := ({ st with dead := true }, "DIVERGE " ++ msg)
+  let s := st.s
+  match words line with
+  | ["commit", t, v, sv, sh, h, res, added, removed] =>
+    match t.toNat?, v.toNat?, sv.toNat?, sh.toNat?, h.toNat?, parseAdded added, parseNats removed with
+    | some t, some v, some sv, some sh, some h, some added, some removed =>
+      let old : Root := { ver := sv, typ := t, hash := sh }
+      let new : Root := { ver := v, typ := t, hash := h }
+      if res == "src_unreadable" then
+        if sh != 0 && Badger.hasRoot s old && Badger.readable (closure st.kids) s old then
+          fail s!"src-unreadable-mismatch model can read source {showRoot old}"
+        else (st, "ok")
+      else
+      let addedV : List (Nat × List Nat) := added.map (fun a => (a.1, a.2.1 ++ a.2.2))
+      let added : List (Nat × List Nat) := added.map (fun a => (a.1, a.2.1))
+      match Badger.commit s old new (added.map (·.1)) removed with
+      | .error e =>
+        if res == e.toString then (st, "ok") else fail s!"commit-result-mismatch impl={res} model={e.toString}"
+      | .ok s' =>
+        if res != "ok" then fail s!"commit-result-mismatch impl={res} model=ok" else
+        -- content addressing: a known hash keeps its children
+        match added.find? (fun a => (st.kids.any (fun k => k.1 == a.1)) && kidsOf st.kids a.1 != a.2) with
+        | some a => fail s!"hash-collision node {a.1} has two different child lists"
+        | none =>
+          let kids' := st.kids ++ added.filter (fun a => !st.kids.any (fun k => k.1 == a.1))
+          -- the hypotheses of the theorems about what a tree hands to a batch (checked on the real tree):
+          let clOld := if sh == 0 then [] else closure kids' sh
+          let clNew := if h == 0 then [] else closure kids' h
+          let addedH := added.map (·.1)
+          if !clNew.all (fun n => clOld.contains n || addedH.contains n) then
+            fail s!"commit-hyp new tree has a node that is neither inherited nor put: new={clNew} old={clOld} added={addedH}"
+          else if !removed.all (fun n => !clNew.contains n || addedH.contains n) then
+            fail s!"commit-hyp removed node still in the new tree without being put again: removed={removed} new={clNew}"
+          else ({ st with s := s', kids := kids',
+                          kidsV := st.kidsV ++ addedV.filter (fun a => !st.kidsV.any (fun k => k.1 == a.1)) }, "ok")
+    | _, _, _, _, _, _, _ => fail "bad-op"
+  | ["finalize", v, chosen, res] =>
+    match v.toNat? with
+    | none => fail "bad-op"
+    | some v =>
+    match parseTHs v chosen with
+    | none => fail "bad-op"
+    | some chosen =>
+      match Badger.finalize s v chosen with
+      | .error e =>
+        if res == e.toString then (st, "ok") else fail s!"finalize-result-mismatch impl={res} model={e.toString}"
+      | .ok s' =>
+        if res != "ok" then fail s!"finalize-result-mismatch impl={res} model=ok" else
+        let p := Badger.finPlan s v (chosen.map (fun r => (r.typ, r.hash)))
+        -- classify every deletion by the rule that produced it
+        let rm := s.rmeta v
+        let removedByFin := rm.flatMap (fun e => if p.finalized.contains e.1 then ((Badger.updOf s v e.1).filter (·.1)).map (·.2) else [])
+        let cs := p.dels.map (fun h => (h, v,
+          if removedByFin.contains h then "finalize:removed-by-a-finalized-root-but-used-by-another-kept-root"
+          else "finalize:put-by-a-discarded-root-but-inherited-by-a-kept-root"))
+        ({ st with s := s', causes := cs ++ st.causes }, "ok")
+  | ["prune", v, res] =>
+    match v.toNat? with
+    | none => fail "bad-op"
+    | some v =>
+      let cl := closure st.kids
+      let clv := closure st.kidsV
+      match Badger.prune cl clv s v with
+      | .error e =>
+        let same := res == e.toString ||
+          (e == .nodeNotFound && (res == "root_not_found" || res.startsWith "other:Key_not_found"))
+        if same then
+          (st, if e == .nodeNotFound then "ok note=prune:visit-of-a-lone-root-fails" else "ok")
+        else fail s!"prune-result-mismatch impl={res} model={e.toString}"
+      | .ok s' =>
+        if res != "ok" then fail s!"prune-result-mismatch impl={res} model=ok" else
+        let dels := Badger.pruneDels clv s v
+        let cs := dels.map (fun h => (h, v, "prune:lone-root-deletes-node-shared-with-a-later-root"))
+        ({ st with s := s', causes := cs ++ st.causes }, "ok")
+  | ["reopen"] => (st, "ok")
+  | ["obs", latest, earliest, roots] =>
+    match earliest.toNat?, parseVTHs roots with
+    | some e, some roots =>
+      let lat := match s.last with | some l => toString l | none => "-"
+      if lat != latest then fail s!"latest-mismatch impl={latest} model={lat}"
+      else if e != s.earliest then fail s!"earliest-mismatch impl={e} model={s.earliest}"
+      else
+        let maxv := roots.foldl (fun m r => max m r.ver) 0
+        let want := sortRoots ((List.range (maxv + 3)).flatMap (Badger.rootsFor s))
+        let got := sortRoots roots
+        if got != want then fail s!"roots-mismatch impl={got.map showRoot} model={want.map showRoot}"
+        else (st, "ok")
+    | _, _ => fail "bad-op"
+  | ["has", v, t, h, b] =>
+    match v.toNat?, t.toNat?, h.toNat? with
+    | some v, some t, some h =>
+      let r : Root := { ver := v, typ := t, hash := h }
+      if Badger.hasRoot s r == (b == "1") then (st, "ok")
+      else fail s!"hasroot-mismatch HasRoot({showRoot r}) impl={b} model={Badger.hasRoot s r}"
+    | _, _, _ => fail "bad-op"
+  | ["readable", v, t, h, b] =>
+    match v.toNat?, t.toNat?, h.toNat? with
+    | some v, some t, some h =>
+      let r : Root := { ver := v, typ := t, hash := h }
+      let want := Badger.readable (closure st.kids) s r
+      if want != (b == "1") then fail s!"readable-mismatch root {showRoot r} impl={b} model={want} ({causeOf st r})"
+      else if want then (st, "ok")
+      else (st, s!"ok note={causeOf st r}")
+    | _, _, _ => fail "bad-op"
+  | [] => (st, "ok")
+  | _ => fail "bad-op"
+
+inductive Mode where
+  | unset
+  | spec (st : SpecSt)
+  | badger (st : BSt)
+
+def step (m : Mode) (line : String) : Mode × String :=
+  match m with
+  | .unset =>
+    match words line with
+    | ["mode", "spec"] => (.spec {}, "ok")
+    | ["mode", "badger"] => (.badger {}, "ok")
+    | _ => (.unset, "DIVERGE bad-mode")
+  | .spec st => let (st', out) := specStep st line; (.spec st', out)
+  | .badger st => let (st', out) := badgerStep st line; (.badger st', out)
+
+def main : IO Unit := loop step .unset
+
 end OasisModel.NodeDB.Driver
